@@ -104,6 +104,7 @@ func c17Eval(c c17Case, expr string) ([]interface{}, string) {
 		li[k] = v
 	}
 	data["list"] = li
+	data["slist"] = append([]string{}, c.List...) // the same list as a caller-owned []string
 	out := obs.EvalText(expr, data)
 	if out.Panic != nil || out.Err != nil {
 		return nil, fmt.Sprintf("%s -> %s", expr, out)
@@ -166,6 +167,20 @@ func checkC17(c c17Case) string {
 		joined += e
 		inT = inT || e == t
 		inS = inS || e == s
+	}
+	// the same through a caller-owned []string, membership asked before and after the concatenation
+	arrS, msgS := c17Eval(c, `[includes(slist,t), includes(slist,s), join(slist,sep), includes(slist,t), join(slist,sep), slist]`)
+	if msgS != "" {
+		return msgS
+	}
+	if m := first(
+		wantBool(arrS, 0, inT, "includes(slist,t)"), wantBool(arrS, 1, inS, "includes(slist,s)"),
+		wantStr(arrS, 2, joined, "join(slist,sep) after includes"), wantBool(arrS, 3, inT, "includes(slist,t) again"), wantStr(arrS, 4, joined, "join(slist,sep) again"),
+	); m != "" {
+		return m
+	}
+	if sl, ok := arrS[5].([]string); !ok || strings.Join(sl, "\x00") != strings.Join(c.List, "\x00") {
+		return fmt.Sprintf("the caller's []string list reads back as %v after includes/join, want %v", arrS[5], c.List)
 	}
 	if m := first(
 		wantBool(arr, 0, naiveHasPrefix(s, t), "startWith(s,t)"),
